@@ -91,8 +91,6 @@ theorem exec_callExpr {G : GCtx} (ok : G.OK) (fuel : Nat) (hcs : ∀ k, k < fuel
             | undef w => trivial
             | exit cd s' =>
               simp only
-              obtain ⟨ws, hws⟩ := callUser_ints f G.xc pj.p vs s (ok.formals_val pj hpj) (by rw [hcu]; intro w h; simp at h)
-              subst hws
               rw [annot_call] at hgen
               obtain ⟨kind, hk, hseq⟩ := genExpr_call_inv _ _ _ _ _ _ _ _ hgen
               obtain ⟨_, hk'⟩ := exprCallKind_inv _ _ _ _ _ _ hk
@@ -112,7 +110,7 @@ theorem exec_callExpr {G : GCtx} (ok : G.OK) (fuel : Nat) (hcs : ∀ k, k < fuel
                 rw [hf, hname]
                 rfl
               rw [hkk] at hseq
-              have := exec_usercall ok f (hcs f (Nat.lt_succ_self _)) hpi hpj sp dep hi hlo hspv hstack args f st s ws hp hev
+              have := exec_usercall ok f (hcs f (Nat.lt_succ_self _)) hpi hpj sp dep hi hlo hspv hstack args f st s vs hp hev
                 gs code gs' i a b mem hseq hat hrs hsz hnl hci
               rw [hcu] at this
               obtain ⟨c, hst, hex⟩ := this
@@ -124,8 +122,6 @@ theorem exec_callExpr {G : GCtx} (ok : G.OK) (fuel : Nat) (hcs : ∀ k, k < fuel
               | none => trivial
               | some w =>
                 simp only
-                obtain ⟨ws, hws⟩ := callUser_ints f G.xc pj.p vs s (ok.formals_val pj hpj) (by rw [hcu]; intro w h; simp at h)
-                subst hws
                 rw [annot_call] at hgen
                 obtain ⟨kind, hk, hseq⟩ := genExpr_call_inv _ _ _ _ _ _ _ _ hgen
                 obtain ⟨_, hk'⟩ := exprCallKind_inv _ _ _ _ _ _ hk
@@ -145,7 +141,7 @@ theorem exec_callExpr {G : GCtx} (ok : G.OK) (fuel : Nat) (hcs : ∀ k, k < fuel
                   rw [hf, hname]
                   rfl
                 rw [hkk] at hseq
-                have := exec_usercall ok f (hcs f (Nat.lt_succ_self _)) hpi hpj sp dep hi hlo hspv hstack args f st s ws hp hev
+                have := exec_usercall ok f (hcs f (Nat.lt_succ_self _)) hpi hpj sp dep hi hlo hspv hstack args f st s vs hp hev
                   gs code gs' i a b mem hseq hat hrs hsz hnl hci
                 rw [hcu] at this
                 obtain ⟨a', b', mem', hst, rep', hres', _⟩ := this
@@ -228,8 +224,6 @@ theorem callLeaf_of_spec {G : GCtx} (ok : G.OK) (pk : PureOk G.xc) {pi : PInfo} 
               simp only [Res.ok.injEq, Val.int.injEq] at hev
               obtain ⟨hw, hs'⟩ := hev
               subst hw; subst hs'
-              obtain ⟨ws, hws⟩ := callUser_ints f G.xc pj.p vs s (ok.formals_val pj hpj) (by rw [hcu]; intro w h; simp at h)
-              subst hws
               have hsA := evalArgs_pure G.xc args f st s _ hargs hea
               have hlk : G.xc.genv.lookup g = some (.proc pj.p) := by rw [hp, hpp]
               have hsC : Sim s s' := ((pure_all G.xc pk f).2.2.1 (keys s.locals) g pj.p _ hlk himp s rfl).1 _ _ hcu
@@ -255,7 +249,7 @@ theorem callLeaf_of_spec {G : GCtx} (ok : G.OK) (pk : PureOk G.xc) {pi : PInfo} 
                 rfl
               rw [hkk] at hseq
               have hrs : Rep (KOf G pi sp dep hi) st mem := hr.same hs
-              have := exec_usercall ok f (hcs f (Nat.lt_succ_self _)) hpi hpj sp dep hi hlo hspv hstack args f st s ws hargs hea
+              have := exec_usercall ok f (hcs f (Nat.lt_succ_self _)) hpi hpj sp dep hi hlo hspv hstack args f st s vs hargs hea
                 gs code gs' i a b mem hseq hat hrs hsz hnl' hci
               rw [hcu] at this
               obtain ⟨a', b', mem', hst, rep', hres', frm⟩ := this
@@ -483,9 +477,7 @@ theorem execS_callStmt {G : GCtx} (ok : G.OK) (fuel : Nat) (hcs : ∀ k, k < fue
             | undef w => trivial
             | exit cd s' =>
               simp only
-              obtain ⟨ws, hws⟩ := callUser_ints f G.xc pj.p vs s (ok.formals_val pj hpj) (by rw [hcu]; intro w h; simp at h)
-              subst hws
-              have := exec_usercall ok f (hcs f (Nat.lt_succ_self _)) hpi hpj sp dep hi hlo hspv hstack args f st s ws hp hev
+              have := exec_usercall ok f (hcs f (Nat.lt_succ_self _)) hpi hpj sp dep hi hlo hspv hstack args f st s vs hp hev
                 gs code gs' i a b mem hgen hat hrs hsz hnl hci
               rw [hcu] at this
               obtain ⟨c, hst, hex⟩ := this
@@ -493,9 +485,7 @@ theorem execS_callStmt {G : GCtx} (ok : G.OK) (fuel : Nat) (hcs : ∀ k, k < fue
               exact ⟨c, hst, hex⟩
             | ok r s' =>
               simp only
-              obtain ⟨ws, hws⟩ := callUser_ints f G.xc pj.p vs s (ok.formals_val pj hpj) (by rw [hcu]; intro w h; simp at h)
-              subst hws
-              have := exec_usercall ok f (hcs f (Nat.lt_succ_self _)) hpi hpj sp dep hi hlo hspv hstack args f st s ws hp hev
+              have := exec_usercall ok f (hcs f (Nat.lt_succ_self _)) hpi hpj sp dep hi hlo hspv hstack args f st s vs hp hev
                 gs code gs' i a b mem hgen hat hrs hsz hnl hci
               rw [hcu] at this
               obtain ⟨a', b', mem', hst, rep', _, _⟩ := this
@@ -516,7 +506,7 @@ theorem callE_inv (ps : List String) (e : X.Expr) (h : callE ps e = true) :
   exact ⟨g, args, rfl, h.1, h.2⟩
 
 theorem callSpec_zero (G : GCtx) : CallSpec G 0 := by
-  intro pi _ ws st lnk b mem spc k kind n _ _ _ _ _ _ _ _
+  intro pi _ ws st lnk b mem spc k kind n _ _ _ _ _ _ _ _ _
   rw [callUser_zero]; trivial
 
 /-- **Stage (4).**  For every fuel: the statement triples of every procedure in every activation
